@@ -226,7 +226,10 @@ def run(tier):
     muts = C06.prints(r.out, "MUT")
     n = 4 if tier == "thorough" else 3
     ni = 6
-    space = sum(28 ** j for j in range(n + 1)) + sum(6 ** j for j in range(ni + 1))
+    ml, mw = (5, 5) if tier == "thorough" else (4, 4)
+    # shapes: sequences of k <= ml lines, each (mw + 1) widths; every line but the last ends in LF, the last may not
+    shapes = 1 + sum((mw + 1) ** k + (mw + 1) ** k for k in range(1, ml + 1)) - 0
+    space = sum(28 ** j for j in range(n + 1)) + sum(6 ** j for j in range(ni + 1)) + shapes
     if len(cases) != space or r.distinct != space + 1 or len(muts) != 1:
         raise C.ToolError("Gen_Lex: %d cases / %d states for a space of %d" % (len(cases), r.distinct, space))
     C.log("[C05] TLC lexed %d strings in %.0fs" % (len(cases), r.wall))
